@@ -1,9 +1,9 @@
 SPECIFICATION Spec
 CONSTANTS
   MaxUnits = 1
-  MaxDepth = 2
+  MaxDepth = 1
   MaxExec = 2
   Impl = "respawn"
   Eager = FALSE
-INVARIANTS TypeOK Accounted NothingLeft
+INVARIANTS NothingLeft
 CHECK_DEADLOCK FALSE
